@@ -38,6 +38,12 @@ CORPUS = {
     'P13_switch_waits_for_shared_case': spec([
         node(0), node(1, body={'kind': 'label', 'v': 'l0'}), node(2), node(3, [('a', inp(2))]),
         node(4, [('a', {'kind': 'switch', 'decider': 1, 'cases': [['l0', 2]], 'name': 'sw0'}), ('b', inp(3))])]),
+    # a failing ancestor shared by a one-of candidate and an outside consumer: the one-of scope stored its exception
+    # as the node's value and the outside consumer was invoked with the exception object (sweep seed 2065)
+    'P17_oneof_scope_error_reaches_outside_consumer': spec([
+        node(0), node(1), node(2, [('a', inp(1)), ('b', inp(0))]), node(3, [('a', inp(1))], fails=[[0, 1, 'E2']]),
+        node(4, [('a', inp(3))]), node(5, [('a', {'kind': 'oneof', 'cands': [4, 2]}), ('b', inp(0))]),
+        node(6, [('a', inp(3)), ('b', inp(0)), ('c', inp(5))])]),
 }
 
 if __name__ == '__main__':
